@@ -370,4 +370,12 @@ def r10_adapter_keeps_smiv1_values(chk):
                  keep=lambda o: 'adapter' in o.key, floor=2)
 
 
-RULES = [r1_lexer_aliases, r2_type_tables, r3_access, r4_import_table, r5_apply_table, r6_trap, r7_translate_before_use, r8_no_mutation_while_iterating, r9_every_type_record_is_translated, r10_adapter_keeps_smiv1_values]
+
+def r11_symbol_table_registration(chk):
+    """a TRAP-TYPE is registered like the NOTIFICATION-TYPE it transliterates to: under the normalised name (shared with
+    C03.R16)"""
+    from rules.C03 import r16_symbol_table_registration
+    r16_symbol_table_registration(chk, rule='C16.R11')
+
+
+RULES = [r1_lexer_aliases, r2_type_tables, r3_access, r4_import_table, r5_apply_table, r6_trap, r7_translate_before_use, r8_no_mutation_while_iterating, r9_every_type_record_is_translated, r10_adapter_keeps_smiv1_values, r11_symbol_table_registration]
